@@ -66,6 +66,7 @@ var extraTypes = []string{
 	"*@{net/http}.Request", "@{net/http}.ResponseWriter", "@{net/http}.Handler", "@{context}.Context", "[]@{context}.Context", "@{time}.Time", "@{~/dep/time}.T",
 	"@{~/x/sync}.T", "*@{sync}.Mutex", "@{~/names/s}.T", "@{~/names/err}.T", "@{~/names/mock}.T", "@{~/names/n}.T",
 	"String", "Int", "[]String", "Error", "*Error", "Append", "[]Append",
+	"@{~/b/foo}.G[@{~/b/foo}.G[Loc]]", "Box[Box[Loc]]", "map[string]@{~/b/foo}.G[[]Loc]",
 }
 
 // typeAlphabet returns T_1 (depth ≤ 1) or T_2 (depth ≤ 2 over a reduced atom set).
@@ -356,6 +357,10 @@ func impPkg(dir string, sel []string, mode string) *SrcPkg {
 			if i == 0 {
 				alias = "first"
 			}
+		case "alias-dirname":
+			if b := strings.ToLower(key[strings.LastIndex(key, "/")+1:]); validIdent(b) && b != depName(key) {
+				alias = b
+			}
 		}
 		al := map[string]string{}
 		if alias != "" {
@@ -400,6 +405,7 @@ func scopeImp(k int, aliasModes bool) []*SrcPkg {
 					emit("alias-clash")
 				}
 				emit("alias-first")
+				emit("alias-dirname")
 			}
 		}
 		if len(sel) == k {
@@ -537,7 +543,7 @@ func scopeEmbed() []*SrcPkg {
 			continue // b/foo has no I2; skip (kept to keep numbering stable)
 		}
 		if strings.Contains(d, "a2()") {
-			continue // unexported method: outside the alphabet
+			ic.InPlaceOnly = true // a sealed interface can only be mocked inside its package
 		}
 		p.add(ic, d)
 	}
@@ -603,16 +609,17 @@ func scopeListPkg() *SrcPkg {
 	sp.Files = []SrcFile{
 		{Name: "a.go", Decls: "type LA interface{ M(afoo int, x @{~/a/foo}.T) }\n\ntype LD interface{ D(@{~/a/foo}.T) @{~/a/foo}.T }\n"},
 		{Name: "b.go", Decls: "type LB interface{ N(y @{~/b/foo}.T) }\n"},
+		{Name: "k.go", Decls: "type LK[K @{~/a/foo}.Ord] interface{ Key(k K) K }\n"},
 		{Name: "c.go", Decls: "type LC interface{ P(s string, t @{time}.Time) error }\n\ntype LE[T any] interface{ Q(T) (T, error) }\n\ntype LF interface{ R(Loc) }\n\ntype LZ interface{}\n\ntype LG = interface{ Do(int) }\n\ntype LH = interface{ Do(s string) error }\n"},
 	}
-	for _, n := range []string{"LA", "LB", "LC", "LD", "LE", "LF", "LG", "LH", "LZ"} {
+	for _, n := range []string{"LA", "LB", "LC", "LD", "LE", "LF", "LG", "LH", "LZ", "LK"} {
 		sp.Ifaces = append(sp.Ifaces, IfaceCase{Name: n, Scope: "S-list"})
 	}
 	return sp
 }
 
 func scopeListArgs() [][]string {
-	pool := []string{"LA", "LB", "LC", "LD", "LE", "LF", "LZ"}
+	pool := []string{"LA", "LB", "LC", "LD", "LE", "LF", "LZ", "LK"}
 	var out [][]string
 	var cur []string
 	var rec func(custom bool)
